@@ -399,10 +399,11 @@ class C12(Spec):
         always = c05.failing_catalogue_ids("C12") | {"9+10+3#cornerS11"}
         for fam, tag in ((csym, None), (casym, "asymmetric-catalogue:")):
             for lid, name, real in fam:
-                if ctx.quick and lid in always:
+                if lid in always:
                     # layouts with recorded findings are searched in every run (all fixed meridians + the meridians through
                     # every loudspeaker), so that their KNOWN-FINDING lines keep being reproduced and anything new on them shows
-                    tasks.append((lid, name, real, "%s/%d/%s" % (ctx.tier, ctx.seed, lid), max(40, n_local // 3), 41 if tag is None else 12, (tag + lid) if tag else None))
+                    tasks.append((lid, name, real, "%s/%d/%s" % (ctx.tier, ctx.seed, lid), max(40, n_local // (3 if ctx.quick else 8)),
+                                  41 if tag is None else max(12, n_circles // 8), (tag + lid) if tag else None))
                     continue
                 on = full is None or lid in full
                 # not sampled: symmetric layouts still get the paths through every loudspeaker, asymmetric ones the structural check
